@@ -440,6 +440,50 @@ func checkTree(spec *ukit.Spec, idx int, res *ux.Result) {
 		probe()
 		twinSpec := inlineTwin(s)
 		twin := ukit.BuildScope(twinSpec)
+		// A comparison that fails half-way must not be remembered. The inlined twin (every object declared in place) is
+		// asked whether it can consume single-feature mutants of the tree while their foreign references are still
+		// unlinked - the comparison ends in an error or in the documented panic for an unlinked reference, which the
+		// caller recovers; the mutant is then linked and compared again with the same twin and with a fresh one: same
+		// verdict. (Trees with reference cycles are left out: comparing them does not terminate - C15's finding.)
+		if !ukit.IsRecursive(spec) {
+			used := ukit.BuildScope(inlineTwin(s))
+			muts := ukit.Mutations(spec)
+			for mi, m := range muts {
+				if mi >= 40 {
+					break
+				}
+				var bm *built
+				var sm *ukit.Spec
+				if pan, _, _ := ukit.Call(func() { bm, sm = buildTree(m) }); pan {
+					continue // the constructors refuse this mutant
+				}
+				ukit.Call(func() { _ = used.ValidateCompatibility(bm.scope) })
+				linked := true
+				for _, ns := range fullyLinkedSeq {
+					if pan, _, _ := ukit.Call(func() { bm.apply(sm, ns) }); pan {
+						linked = false
+					}
+				}
+				if !linked || bm.scope.ValidateReferences() != nil {
+					continue
+				}
+				res.Evaluations++
+				verdict := func(c schema.Type) string {
+					out := "panic"
+					ukit.Call(func() {
+						if err := c.ValidateCompatibility(bm.scope); err != nil {
+							out = "reject"
+						} else {
+							out = "accept"
+						}
+					})
+					return out
+				}
+				if vu, vf := verdict(used), verdict(ukit.BuildScope(inlineTwin(s))); vu != vf {
+					fail("a schema comparison depends on an earlier comparison that failed", fmt.Sprintf("consumer: the inlined twin; producer: mutant #%d of the tree, first compared while its references were unlinked (failed), then linked: the same consumer now says %s, a fresh one %s\nmutant: %s", mi, vu, vf, m), fullyLinkedSeq)
+				}
+			}
+		}
 		// the same tree as an engine gets it: described, loaded from the description, the same namespaces applied
 		var loaded *schema.ScopeSchema
 		if !ukit.PureMapBased(s) {
